@@ -262,6 +262,7 @@ class Run:
         self.exhaustive = False
         self.known = load_known()
         self.ambiguous = 0
+        self.is_replay = False
 
     @property
     def thorough(self):
@@ -345,7 +346,8 @@ class Run:
                 nviol += 1
         for sig, info in self.known_hits.items():
             print(f"KNOWN-FINDING: property={self.prop} {sig[0]}: {info['what']} ({info['count']} case(s) this run)")
-        self._write_evidence(nviol)
+        if not self.is_replay:      # a replay re-judges one recorded input; it is not a check run
+            self._write_evidence(nviol)
         for l in lines:
             print(l)
         dt = time.time() - self.t0
